@@ -48,17 +48,21 @@ def run_dm(ctx):
         m = maps[i]; t = m["t"]
         h, w, cap = t[0], t[1], t[2]
         shape = 2 if h != w else 1
-        n = max(1, rng.choice([cap // 2, cap - 2, cap // 3 + 1]))
-        text = [rng.choice(b"ABCDEFGHIJKLMNOPQRSTUVWXYZ0123456789 abcdef.,") for _ in range(n)]
-        sets = []
-        allpos = [(b, k) for b, ix in enumerate(m["blocks"], 1) for k in range(1, len(ix) + 1)]
-        step = 1 if (not ctx.quick or len(allpos) <= 500) else 5
-        for (b, k) in allpos[rng.randrange(step)::step]:          # every codeword position of every block, single fault
-            sets.append(mkset(m, [(b, k, rng.choice([1, 128, 255, rng.randint(1, 255)]))]))
-        for style in range((3 if cap > 100 else 10) if ctx.quick else 12):   # floor(ec/2) faults in every block at once
-            sets.append(mkset(m, full(rng, m, style % 3)))
-        sets.append(mkset(m, full(rng, m, 2, extra=rng.randint(1, len(m["blocks"])))))   # one beyond capacity: error or right text
-        ev.append(dict(op="dmg", text=text, utf=0, shape=shape, mn=[w, h], mx=[w, h], size=i, sets=sets, tag="blocks"))
+        # small symbols get several different payloads: a decoder slip that mis-reads one module only costs a codeword when the
+        # payload makes the two modules differ, and then only shows when the rest of the capacity is used up
+        for rep in range(4 if cap <= 50 else 1):
+            n = max(1, rng.choice([cap // 2, cap - 2, cap // 3 + 1]))
+            text = [rng.choice(b"ABCDEFGHIJKLMNOPQRSTUVWXYZ0123456789 abcdef.,") for _ in range(n)]
+            sets = []
+            allpos = [(b, k) for b, ix in enumerate(m["blocks"], 1) for k in range(1, len(ix) + 1)]
+            step = 1 if (not ctx.quick or len(allpos) <= 500) else 5
+            if rep == 0:
+                for (b, k) in allpos[rng.randrange(step)::step]:          # every codeword position of every block, single fault
+                    sets.append(mkset(m, [(b, k, rng.choice([1, 128, 255, rng.randint(1, 255)]))]))
+            for style in range((3 if cap > 100 else 8) if ctx.quick else 12):   # floor(ec/2) faults in every block at once
+                sets.append(mkset(m, full(rng, m, style % 3)))
+            sets.append(mkset(m, full(rng, m, 2, extra=rng.randint(1, len(m["blocks"])))))   # one beyond capacity: error or right text
+            ev.append(dict(op="dmg", text=text, utf=0, shape=shape, mn=[w, h], mx=[w, h], size=i, sets=sets, tag="blocks"))
     obs = dmlib.judge(ctx, ev, "C05 Data Matrix damage")
     ctx.extra["dm_fault_scripts"] = sum(len(o.get("sets", ())) for o in obs)
     for o in obs:
